@@ -67,8 +67,12 @@ fn unimported_name(g: &Graph, i: usize) -> String {
 fn body_text(g: &Graph, i: usize) -> String {
     match g.status[i] {
         Status::BodyFault => format!("(define v{} (no-such-procedure {}))", i, i),
+        // (odd i: the name of a macro private to another library, used as an operator: an unbound variable whatever was
+        // read before)
+        Status::UsesUnimported if i % 2 == 1 => format!("(define v{} (mac{} 7))", i, (i + 1) % g.n.max(2)),
         Status::UsesUnimported => format!("(define v{} {})", i, unimported_name(g, i)),
-        _ => format!("(define v{} {})", i, 100 + i),
+        // a syntax definition private to the library
+        _ => format!("(define-syntax mac{} (syntax-rules () ((mac{} e) e))) (define v{} (mac{} {}))", i, i, i, i, 100 + i),
     }
 }
 
@@ -469,6 +473,102 @@ fn location_check(ctx: &Ctx) {
     }
 }
 
+/// a library definition is replaced (through a library loader or a single factory) after it has been imported: the
+/// next import sees the new graph
+fn redefinition_check(ctx: &Ctx) {
+    if ctx.skip_sub("redefinition") || ctx.replay.is_some() {
+        return;
+    }
+    use ruschm::interpreter::LibraryLoader;
+    let mut reps = vec![];
+    for via_loader in [true, false] {
+        for second in [Status::BodyFault, Status::UsesUnimported, Status::Healthy, Status::Missing] {
+            for imported_before in [true, false] {
+                // graph: n0 -> n1 ; first both healthy, then n1 (or n0) is given the second status
+                // (only the library that is imported again is redefined: whether a cached dependent notices a redefined
+                // dependency is not something the property speaks about)
+                for victim in [0usize] {
+                    if second == Status::Missing {
+                        continue;
+                    }
+                    let g1 = Graph { n: 2, edges: vec![vec![1], vec![]], status: vec![Status::Healthy, Status::Healthy], multi_decl: false, wrap: 0 };
+                    let mut g2 = g1.clone();
+                    g2.status[victim] = second;
+                    if second == Status::Missing {
+                        // "missing" cannot be registered: the dependency is renamed away instead (n0 now needs n2)
+                        g2.status[victim] = Status::Healthy;
+                        g2.edges[0] = vec![1];
+                    }
+                    let mut rep = Report::new(format!(
+                        "redefinition ({}): n0->n1 healthy{}, then n{} redefined as {:?}, then (import (g n0))",
+                        if via_loader { "append_lib_loader" } else { "register_library_factory" },
+                        if imported_before { ", imported" } else { "" },
+                        victim,
+                        second
+                    ));
+                    rep.nontrivial = imported_before;
+                    let (g1c, g2c) = (g1.clone(), g2.clone());
+                    let outcome = sut::in_thread(move || {
+                        let mut s = Session::bare().unwrap();
+                        s.it.program_directory = Some(std::env::temp_dir().join("rv-c14-no-such-dir"));
+                        let factories = |g: &Graph, only: Option<usize>| -> Vec<LibraryFactory<'static, f32>> {
+                            (0..g.n).filter(|i| only.map(|o| o == *i).unwrap_or(true)).filter_map(|i| LibraryFactory::from_char_stream(&lib_name(i), lib_text(g, i, None).chars()).ok()).collect()
+                        };
+                        if via_loader {
+                            let mut l = LibraryLoader::default();
+                            for f in factories(&g1c, None) {
+                                l.register_library_factory(f);
+                            }
+                            s.it.append_lib_loader(l);
+                        } else {
+                            for f in factories(&g1c, None) {
+                                s.it.register_library_factory(f);
+                            }
+                        }
+                        let first = if imported_before { Some(s.eval("(import (g n0))")) } else { None };
+                        if via_loader {
+                            let mut l = LibraryLoader::default();
+                            for f in factories(&g2c, Some(victim)) {
+                                l.register_library_factory(f);
+                            }
+                            s.it.append_lib_loader(l);
+                        } else {
+                            for f in factories(&g2c, Some(victim)) {
+                                s.it.register_library_factory(f);
+                            }
+                        }
+                        (first, s.eval("(import (g n0))"))
+                    });
+                    rep.note = format!("{:?} / {}", outcome.0.as_ref().map(|o| o.show()), outcome.1.show());
+                    if let Some(f) = &outcome.0 {
+                        if !matches!(f, crate::sut::Outcome::NoValue) {
+                            rep.fail("import-fails-on-healthy-graph:first", f.show());
+                        }
+                    }
+                    let acc = acceptable(&g2, 0);
+                    let cls = match &outcome.1 {
+                        crate::sut::Outcome::NoValue | crate::sut::Outcome::Value(_) => "ok".to_string(),
+                        crate::sut::Outcome::Error(e) => class_of(&e.tag),
+                        other => other.show(),
+                    };
+                    let ok = if cls == "ok" { acc.is_empty() } else { acc.contains(&cls.as_str()) };
+                    if !ok {
+                        rep.fail(
+                            if cls == "ok" { "import-keeps-the-instance-of-a-redefined-library".to_string() } else { format!("import-wrong-error:{}", cls) },
+                            format!("after the redefinition (import (g n0)) gave {}, the new graph admits {:?}", cls, if acc.is_empty() { vec!["ok"] } else { acc.clone() }),
+                        );
+                    }
+                    reps.push(rep);
+                }
+            }
+        }
+    }
+    for r in reps {
+        let rr = r.clone();
+        ctx.texts("redefinition", &[r.key.clone()], move |_| rr.clone());
+    }
+}
+
 pub fn run(ctx: &Ctx) {
     ctx.set_rule(
         "every directed graph (self-loops allowed) on 1-2 libraries (thorough: 3, strided) x every assignment of node \
@@ -479,11 +579,13 @@ pub fn run(ctx: &Ctx) {
          Oracle computed from the graph alone: success iff everything reachable is healthy and no cycle is reachable, a \
          cyclic-import error only if a cycle is reachable, a fault's own error class only if that faulty library is \
          reachable; every attempt equals the same import on a fresh interpreter; every attempt terminates (step and depth budget of the import hook: 100 000 evaluation steps, 64 nested imports); \
-         libraries are located relative to the program directory (eval_file from another working directory with decoys; two program files in different directories run on \
+         a library redefined after it was imported (through append_lib_loader or register_library_factory) is judged by \
+         the new graph; libraries are located relative to the program directory (eval_file from another working directory with decoys; two program files in different directories run on \
          one interpreter). \
          Non-trivial = >= 2 libraries with a shared dependency or a cycle, or a history whose first attempt fails.",
     );
     location_check(ctx);
+    redefinition_check(ctx);
     for (files, statuses, label) in [(true, &FILE_STATUSES[..], "files"), (false, &SOURCE_STATUSES[..], "registered")] {
         for n in 1..=ctx.tier.pick(2, 3) {
             let total = graph_count(n, statuses.len());
